@@ -269,3 +269,16 @@ class Report:
         with open(os.path.join(EVID, self.pid + ".json"), "w") as f:
             json.dump(ev, f, indent=1, default=str)
         return 1 if self.violations else 0
+
+
+def prune_cache(cdir, prefix, keep=2):
+    """Keep only the `keep` most recently used cache entries whose name starts with prefix (disk is limited)."""
+    import glob
+    fs = [f for f in glob.glob(os.path.join(cdir, prefix + "_*.ndjson")) if re.fullmatch(re.escape(prefix) + r"_[0-9a-f]{16}\.ndjson", os.path.basename(f))]
+    fs.sort(key=lambda f: os.path.getmtime(f), reverse=True)
+    for f in fs[keep:]:
+        for g in (f, f + ".json", f[:-len(".ndjson")] + ".json"):
+            try:
+                os.remove(g)
+            except OSError:
+                pass
